@@ -21,6 +21,7 @@ import BufrModel.Drv.LinksOp
 import BufrModel.Drv.ViewOp
 import BufrModel.Drv.StreamOp
 import BufrModel.Drv.WidthsOp
+import BufrModel.Drv.QueryOp
 open Lean Bufr.Drv
 
 /-- stateless operations: one line per op -/
@@ -39,6 +40,7 @@ def statelessOps : List (String × (Json → J Json)) :=
   ("normalize", opNormalize) ::
   ("cache", opCache) ::
   ("links-spec", opLinksSpec) ::
+  ("pyslice", opPySlice) ::
   []
 
 /-- operations that read or change the driver state -/
@@ -68,6 +70,8 @@ def statefulOps : List (String × (DrvState → Json → J (DrvState × Json))) 
   ("scan", opScan) ::
   ("enc-data-widths", opEncDataWidths) ::
   ("dec-subsets", opDecSubsets) ::
+  ("query", opQuery) ::
+  ("paths", opPaths) ::
   []
 
 def dispatch (st : DrvState) (j : Json) : J (DrvState × Json) := do
